@@ -275,7 +275,7 @@ impl FormatSpec {
     pub fn parse(text: &str) -> Result<Self, FormatSpecError> {
         // get_integer in CPython
         let (conversion, text) = FormatConversion::parse(text);
-        let (mut fill, mut align, text) = parse_fill_and_align(text);
+        let (mut fill, align, text) = parse_fill_and_align(text);
         let (sign, text) = FormatSign::parse(text);
         let (alternate_form, text) = parse_alternate_form(text);
         let (zero, text) = parse_zero(text);
@@ -287,9 +287,10 @@ impl FormatSpec {
             return Err(FormatSpecError::InvalidFormatSpecifier);
         }
 
+        // The '0' flag is a '0' fill; the alignment it implies depends on the value formatted
+        // ('=' for numbers, the default '<' for text), see `resolved_align`.
         if zero && fill.is_none() {
             fill.replace('0');
-            align = align.or(Some(FormatAlign::AfterSign));
         }
 
         Ok(FormatSpec {
@@ -303,6 +304,17 @@ impl FormatSpec {
             precision,
             format_type,
         })
+    }
+
+    /// The alignment in effect: the explicit one, else '=' for a number formatted with the
+    /// '0' flag (a '0' fill without an alignment can only come from that flag), else the
+    /// default of the value's type.
+    fn resolved_align(&self, default_align: FormatAlign) -> FormatAlign {
+        match (self.align, self.fill, default_align) {
+            (Some(align), _, _) => align,
+            (None, Some('0'), FormatAlign::Right) => FormatAlign::AfterSign,
+            (None, _, default_align) => default_align,
+        }
     }
 
     fn compute_fill_string(fill_char: char, fill_chars_needed: i32) -> String {
@@ -392,8 +404,12 @@ impl FormatSpec {
         }
         let (digits, remainder) = magnitude_str.split_at(n_digits);
         // Zero padding takes part in the grouping only for '0' fill with '=' alignment.
-        let min_width = match (self.fill, self.align, self.width) {
-            (Some('0'), Some(FormatAlign::AfterSign), Some(width)) => {
+        let min_width = match (
+            self.fill,
+            self.resolved_align(FormatAlign::Right),
+            self.width,
+        ) {
+            (Some('0'), FormatAlign::AfterSign, Some(width)) => {
                 width.saturating_sub(prefix.len() + remainder.len())
             }
             _ => 0,
@@ -582,6 +598,13 @@ impl FormatSpec {
         T: CharLen + Deref<Target = str>,
     {
         self.validate_format(FormatType::String)?;
+        // a sign, the alternate form and '=' alignment only make sense for numbers
+        if self.sign.is_some()
+            || self.alternate_form
+            || self.align == Some(FormatAlign::AfterSign)
+        {
+            return Err(FormatSpecError::InvalidFormatSpecifier);
+        }
         match self.format_type {
             Some(FormatType::String) | None => match self.precision {
                 // the precision truncates the text (by characters) before it is padded
@@ -611,7 +634,7 @@ impl FormatSpec {
     where
         T: CharLen + Deref<Target = str>,
     {
-        let align = self.align.unwrap_or(default_align);
+        let align = self.resolved_align(default_align);
 
         let num_chars = magnitude_str.char_len();
         let fill_char = self.fill.unwrap_or(' ');
